@@ -110,7 +110,16 @@ func cmdCheck(args []string) int {
 			fmt.Println("ENGINE-ERROR:", err)
 			return 2
 		}
-		w, err := LoadWorld(*repo, g.Pkg, append([]string{decl}, gr.files...), "")
+		declFiles := []string{decl}
+		for _, api := range g.API {
+			d2 := filepath.Join(gr.tmp, "decl_"+api+".go")
+			if err := instantiate(filepath.Join(root, "harness/common/verif_decl_"+api+".go.tmpl"), d2, gr.pkgName); err != nil {
+				fmt.Println("ENGINE-ERROR:", err)
+				return 2
+			}
+			declFiles = append(declFiles, d2)
+		}
+		w, err := LoadWorld(*repo, g.Pkg, append(declFiles, gr.files...), "")
 		if err != nil {
 			fmt.Println("ENGINE-ERROR: loading", g.Pkg, "with harness:", err)
 			writeEvidenceError(root, id, *tier, seed, spec, "tree does not load with harness: "+err.Error(), time.Since(t0))
@@ -561,6 +570,13 @@ func nativeReplay(repo, root string, gr *groupRun, items []replayItem) (map[stri
 		return nil, err
 	}
 	overlay[filepath.Join(pkgDir, "zz_verif_native.go")] = nat
+	for _, api := range gr.spec.API {
+		n2 := filepath.Join(dir, "native_"+api+".go")
+		if err := instantiate(filepath.Join(root, "harness/common/verif_native_"+api+".go.tmpl"), n2, gr.pkgName); err != nil {
+			return nil, err
+		}
+		overlay[filepath.Join(pkgDir, "zz_verif_native_"+api+".go")] = n2
+	}
 	tst := filepath.Join(dir, "replay_test.go")
 	if err := instantiate(filepath.Join(root, "harness/common/replay_test.go.tmpl"), tst, gr.pkgName); err != nil {
 		return nil, err
